@@ -52,7 +52,7 @@ NUMERIC_ONLY = {"all", "any", "mean", "median", "quantile", "std", "var", "sum"}
 KINDS = ["f8", "i8", "b1", "D", "us"]
 ALPHA = {
     "f8": [None, "1.0", "2.0", "-1.5", "inf", "-inf"],
-    "i8": [0, 1, 2, -3],
+    "i8": [0, 1, 4611686018427387904, -3, 2],
     "b1": [False, True],
     "D": [None, "1970-01-01", "2020-02-29"],
     "us": [None, "1970-01-01T00:00:00", "2020-02-29T23:59:59.999999"],
